@@ -83,7 +83,46 @@ type MdnsManager struct {
 
 	mux,
 	muxAnnounced,
-	muxReport sync.Mutex
+	muxReport,
+	muxConfig sync.Mutex
+}
+
+// the provider, the report callback and the auto accept flag are used by the
+// application, the hub and the provider goroutines at the same time
+
+func (m *MdnsManager) provider() api.MdnsProviderInterface {
+	m.muxConfig.Lock()
+	defer m.muxConfig.Unlock()
+
+	return m.mdnsProvider
+}
+
+func (m *MdnsManager) setProvider(provider api.MdnsProviderInterface) {
+	m.muxConfig.Lock()
+	defer m.muxConfig.Unlock()
+
+	m.mdnsProvider = provider
+}
+
+func (m *MdnsManager) reportCallback() api.MdnsReportInterface {
+	m.muxConfig.Lock()
+	defer m.muxConfig.Unlock()
+
+	return m.report
+}
+
+func (m *MdnsManager) setReportCallback(cb api.MdnsReportInterface) {
+	m.muxConfig.Lock()
+	defer m.muxConfig.Unlock()
+
+	m.report = cb
+}
+
+func (m *MdnsManager) isAutoAccept() bool {
+	m.muxConfig.Lock()
+	defer m.muxConfig.Unlock()
+
+	return m.autoaccept
 }
 
 func shortenString(s string, maxLen int) string {
@@ -176,24 +215,27 @@ func (m *MdnsManager) Start(cb api.MdnsReportInterface) error {
 		// First try avahi, if not available use zerconf
 		provider := NewAvahiProvider(ifaceIndexes)
 		if provider.Start(false, m.processMdnsEntry) {
-			m.mdnsProvider = provider
+			m.setProvider(provider)
 		} else {
 			provider.Shutdown()
 
 			// Avahi is not availble, use Zeroconf
-			m.mdnsProvider = NewZeroconfProvider(ifaces)
-			if !m.mdnsProvider.Start(false, m.processMdnsEntry) {
+			zcProvider := NewZeroconfProvider(ifaces)
+			m.setProvider(zcProvider)
+			if !zcProvider.Start(false, m.processMdnsEntry) {
 				return errors.New("No mDNS provider available")
 			}
 		}
 	case MdnsProviderSelectionAvahiOnly:
 		// Only use Avahi
-		m.mdnsProvider = NewAvahiProvider(ifaceIndexes)
-		_ = m.mdnsProvider.Start(true, m.processMdnsEntry)
+		provider := NewAvahiProvider(ifaceIndexes)
+		m.setProvider(provider)
+		_ = provider.Start(true, m.processMdnsEntry)
 	case MdnsProviderSelectionGoZeroConfOnly:
 		// Only use Zeroconf
-		m.mdnsProvider = NewZeroconfProvider(ifaces)
-		_ = m.mdnsProvider.Start(true, m.processMdnsEntry)
+		provider := NewZeroconfProvider(ifaces)
+		m.setProvider(provider)
+		_ = provider.Start(true, m.processMdnsEntry)
 	}
 
 	// on startup always start mDNS announcement
@@ -201,7 +243,7 @@ func (m *MdnsManager) Start(cb api.MdnsReportInterface) error {
 		return err
 	}
 
-	m.report = cb
+	m.setReportCallback(cb)
 
 	// catch signals
 	go func() {
@@ -221,12 +263,13 @@ func (m *MdnsManager) Shutdown() {
 	m.shutdownOnce.Do(func() {
 		m.UnannounceMdnsEntry()
 
-		if m.mdnsProvider == nil {
+		provider := m.provider()
+		if provider == nil {
 			return
 		}
 
-		m.mdnsProvider.Shutdown()
-		m.mdnsProvider = nil
+		provider.Shutdown()
+		m.setProvider(nil)
 	})
 }
 
@@ -234,7 +277,8 @@ func (m *MdnsManager) Shutdown() {
 // A CEM service should always invoke this on startup
 // Any other service should only invoke this whenever it is not connected to a CEM service
 func (m *MdnsManager) AnnounceMdnsEntry() error {
-	if m.mdnsProvider == nil {
+	provider := m.provider()
+	if provider == nil {
 		return nil
 	}
 
@@ -248,7 +292,7 @@ func (m *MdnsManager) AnnounceMdnsEntry() error {
 		"brand=" + m.deviceBrand,
 		"model=" + m.deviceModel,
 		"type=" + m.deviceType,
-		"register=" + fmt.Sprintf("%v", m.autoaccept),
+		"register=" + fmt.Sprintf("%v", m.isAutoAccept()),
 	}
 
 	// SHIP Requirements for Installation Process V1.0.0
@@ -265,7 +309,7 @@ func (m *MdnsManager) AnnounceMdnsEntry() error {
 
 	serviceName := m.serviceName
 
-	if err := m.mdnsProvider.Announce(serviceName, m.port, txt); err != nil {
+	if err := provider.Announce(serviceName, m.port, txt); err != nil {
 		logging.Log().Debug("mdns: failure announcing service", err)
 		return err
 	}
@@ -280,11 +324,12 @@ func (m *MdnsManager) AnnounceMdnsEntry() error {
 
 // Stop the mDNS announcement on the network
 func (m *MdnsManager) UnannounceMdnsEntry() {
-	if !m.isServiceAnnounced() || m.mdnsProvider == nil {
+	provider := m.provider()
+	if !m.isServiceAnnounced() || provider == nil {
 		return
 	}
 
-	m.mdnsProvider.Unannounce()
+	provider.Unannounce()
 	logging.Log().Debug("mdns: stop announcement")
 
 	m.setIsServiceAnnounce(false)
@@ -305,7 +350,9 @@ func (m *MdnsManager) setIsServiceAnnounce(value bool) {
 }
 
 func (m *MdnsManager) SetAutoAccept(accept bool) {
+	m.muxConfig.Lock()
 	m.autoaccept = accept
+	m.muxConfig.Unlock()
 
 	// if announcement is off, don't enforce a new announcement
 	if !m.isServiceAnnounced() {
@@ -422,7 +469,9 @@ func (m *MdnsManager) reportMdnsEntries(newEntries bool) {
 		}
 		m.reportedSeq = seq
 
-		m.report.ReportMdnsEntries(entries, newEntries)
+		if cb := m.reportCallback(); cb != nil {
+			cb.ReportMdnsEntries(entries, newEntries)
+		}
 	}()
 }
 
@@ -592,7 +641,7 @@ func (m *MdnsManager) processMdnsEntry(elements map[string]string, name, host st
 		logging.Log().Debug("mdns: new - ski:", ski, "name:", name, "brand:", brand, "model:", model, "typ:", deviceType, "serial:", serial, "categories:", categoriesStr, "identifier:", identifier, "register:", register, "host:", host, "port:", port, "addresses:", addresses)
 	}
 
-	if m.report == nil || !updated {
+	if m.reportCallback() == nil || !updated {
 		return
 	}
 
@@ -600,7 +649,7 @@ func (m *MdnsManager) processMdnsEntry(elements map[string]string, name, host st
 }
 
 func (m *MdnsManager) RequestMdnsEntries() {
-	if m.report == nil {
+	if m.reportCallback() == nil {
 		return
 	}
 
